@@ -59,7 +59,7 @@ var c15Addrs = []netip.Addr{
 }
 
 var c15Delays = []time.Duration{0, 0, time.Second, 61 * time.Second, 121 * time.Second} // index 1 is replaced by 1/limit
-var c15Costs = []int{1, 3, 15, -1} // -1 stands for "exactly the burst size" (a run of admitted requests compressed into one)
+var c15Costs = []int{1, 3, 15, -1}                                                      // -1 stands for "exactly the burst size" (a run of admitted requests compressed into one)
 
 func c15Run(c *choice.Ctx, rep *report.R, cfg c15Cfg, addrs []netip.Addr, maxLen int, tag string) {
 	limit, burst, v4, v6 := cfg.eff()
